@@ -4,9 +4,10 @@
    (documented spellings, what a type's name states, documented defaults), Spec/ConfigUnits.v (unit table).
    Model: Model/Config.v (try_as_spdc in the code's order with oracles), Model/Regex.v (regex engine). *)
 From Coq Require Import Reals Ascii String List Bool ZArith QArith.
+From Flocq Require Import Core.
 From SpdVerif Require Import Base.Rx Base.CfgNumOps Spec.ConfigSpec Gen.ConfigTables Spec.ConfigUnits Model.ConfigTypes Model.Config
   Model.NumInst Model.Regex Model.Names Gen.ConfigConv
-  Proofs.C16_names Proofs.C16_round Proofs.C16_roundtrip Proofs.C16_stable Proofs.C16_defaults Proofs.Regex Proofs.C16_disjoint Gen.ConfigSites Gen.CfgSteps Proofs.CfgSteps_eq.
+  Proofs.C16_names Proofs.C16_round Proofs.C16_roundtrip Proofs.C16_stable Proofs.C16_defaults Proofs.Regex Proofs.C16_disjoint Proofs.C16_sigfigs_b64 Gen.ConfigSites Gen.CfgSteps Proofs.CfgSteps_eq.
 Import ListNotations.
 Local Open Scope R_scope.
 
@@ -154,6 +155,23 @@ Proof. exact exported_numbers_four_decimals. Qed.
 Theorem C16_round4 : forall x, round4 (round4 x) = round4 x /\ Rabs (round4 x - x) <= / 20000.
 Proof. exact (fun x => conj (round4_idempotent x) (round4_err x)). Qed.
 
+(* binary64 (Flocq) statement for math::sigfigs(x, 4): sigfigs_b64 x = b64 (round_half_away (b64 (x * 10^4)) / 10^4), b64 = round to
+   nearest-even in binary64.  At an EXACT tie (x * 10^4 = k + 1/2) the product is representable and the code rounds away from
+   zero exactly as round4 does; farther than 2^-53 |x * 10^4| from every half-integer (normal range) the binary64 product rounds
+   to the same integer as the exact one.  In both cases the result is the binary64 number nearest to the 4-decimal value
+   round4 x.  _partial: inside the 2^-53-relative band around a tie the two may differ by 1e-4 (the checks skip such inputs). *)
+Theorem C16_sigfigs_b64_tie_partial : forall x (k : Z),
+  (Z.abs (2 * k + 1) < 2 ^ 53)%Z -> x * 10000 = IZR k + / 2 ->
+  b64 (x * 10000) = x * 10000 /\ sigfigs_b64 x = b64 (round4 x).
+Proof. exact sigfigs_b64_tie. Qed.
+
+Theorem C16_sigfigs_b64_away_from_ties_partial : forall x,
+  let p := x * 10000 in
+  bpow radix2 (-1022) <= Rabs p ->
+  (forall z : Z, Rabs (p - (IZR z + / 2)) > / 2 * bpow radix2 (-52) * Rabs p) ->
+  round_half_away (b64 p) = round_half_away p /\ sigfigs_b64 x = b64 (round4 x).
+Proof. exact sigfigs_b64_away_from_ties. Qed.
+
 (* converting the exported configuration again reproduces it exactly (all oracles), for setups whose exported angles are
    not at the wrap-around of their range (there 360.0000 re-imports as 0; Findings/C16_wrap.v) *)
 Theorem C16_stable : forall U K minpos rj s, reimportable U s ->
@@ -227,6 +245,8 @@ Print Assumptions C16_roundtrip.
 Print Assumptions C16_as_config_is_unit_table_now.
 Print Assumptions C16_exported_numbers_four_decimals.
 Print Assumptions C16_round4.
+Print Assumptions C16_sigfigs_b64_tie_partial.
+Print Assumptions C16_sigfigs_b64_away_from_ties_partial.
 Print Assumptions C16_stable.
 Print Assumptions C16_auto_is_explicit.
 Print Assumptions C16_defaults.
